@@ -105,6 +105,11 @@ def judge(pid, traces, wd, v, by_id, counts):
         for ln in tr["rejects"]:
             m = re.match(r'<<"REJECT", (\d+), (\d+), "([^"]*)", "([^"]*)">>$', ln)
             iid, line, rule, api = int(m.group(1)), int(m.group(2)), m.group(3), m.group(4)
+            if rule.startswith("growth."):
+                counts["growth-mismatch"] = counts.get("growth-mismatch", 0) + 1
+                if counts["growth-mismatch"] <= 5:
+                    log("GROWTH-SPEC-MISMATCH module=Trace_Decode rule=%s item=%d" % (rule, iid))
+                continue
             it = by_id.get(iid, {})
             e = None
             with open(tp) as f:
@@ -147,8 +152,13 @@ def run_c03(pid):
         if g["selfErrs"] or not g["selfSame"]:
             raise ToolError("FlacGen / FlacFormat disagree on plan %s: errs=%s same=%s" % (g["id"], g["selfErrs"], g["selfSame"]))
         p = by_plan[g["id"]]
+        lay, off, s0 = [], g["metaLen"], 0
+        for f, ln in zip(p["frames"], g["frameLens"]):
+            lay.append([off, s0, f["bs"]])
+            off += ln
+            s0 += f["bs"]
         items.append({"id": g["id"], "bytes": g["bytes"], "pcm": g["pcm"], "bps": p["bps"], "metaLen": g["metaLen"], "frameLens": g["frameLens"],
-                      "valid": True, "md5mode": p["md5"], "subset": p["subset"] and not p["variable"], "class": "valid",
+                      "layout": lay, "valid": True, "md5mode": p["md5"], "subset": p["subset"] and not p["variable"], "class": "valid",
                       "plan": {k: p[k] for k in p if k != "pcm"}})
     items.sort(key=lambda x: x["id"])
     # syntactic alternatives actually covered (non-vacuity)
